@@ -153,9 +153,11 @@ def refuse (s : Store) : Store := record { s with failed := s.failed + 1 }
 /-- the debt branch: `balance` is the local variable of `consume` at that point -/
 def debtPath (s : Store) (cost : Nat) (cur : Cur) (allowDebt : Bool) (balance : Int) (afterTopup : Bool) :
     Store × Branch :=
-  if allowDebt = true ∧ s.debt < s.maxDebt ∧ s.debt + (cost - balance) ≤ s.maxDebt then
-    -- the pool that was short is emptied (`self.atp = 0` / `self.gtp = 0` / `self.nadh = 0`), the rest is owed
-    (charge ({ s with debt := s.debt + (cost - balance) }.setBal cur 0) cost, .debt afterTopup)
+  if allowDebt = true ∧ s.debt < s.maxDebt then
+    if s.debt + (cost - balance) ≤ s.maxDebt then
+      -- the pool that was short is emptied (`self.atp = 0` / `self.gtp = 0` / `self.nadh = 0`), the rest is owed
+      (charge ({ s with debt := s.debt + (cost - balance) }.setBal cur 0) cost, .debt afterTopup)
+    else (refuse s, .refused afterTopup)
   else (refuse s, .refused afterTopup)
 
 /-- Everything `consume` does inside the lock except the final `_update_state()` of the success paths. -/
@@ -259,50 +261,33 @@ def retBool : Except Exc Bool → Ret
 
 abbrev Sys := List Store
 
+/-- Apply a single-store call to store `i` of the colony and write the result back. -/
+def onStore (sys : Sys) (i : Nat) (f : Store → Store × Ret) : Sys × Ret :=
+  match sys[i]? with
+  | some s => let r := f s; (sys.set i r.1, r.2)
+  | none => (sys, .noSuchStore)
+
 /-- One call on the colony.  `transfer src dst` is `withdraw` on `src`, then (only if that succeeded)
     `deposit` on `dst` — read after the withdrawal was written back, so `src = dst` behaves as in Python. -/
 def step (cls : Classifier) (sys : Sys) : Op → Sys × Ret
-  | .consume i cost cur d p =>
-    match sys[i]? with
-    | some s => let r := consume cls s cost cur d p; (sys.set i r.1, retBool r.2.1)
-    | none => (sys, .noSuchStore)
-  | .regenerate i n cur =>
-    match sys[i]? with
-    | some s => let r := regenerate cls s n cur; (sys.set i r.1, retUnit r.2)
-    | none => (sys, .noSuchStore)
+  | .consume i cost cur d p => onStore sys i fun s => let r := consume cls s cost cur d p; (r.1, retBool r.2.1)
+  | .regenerate i n cur => onStore sys i fun s => let r := regenerate cls s n cur; (r.1, retUnit r.2)
   | .transfer i j n cur =>
     match sys[i]?, sys[j]? with
     | some a, some _ =>
       let w := withdraw a n cur
       let sys1 := sys.set i w.1
       if w.2 then
-        match sys1[j]? with
-        | some b =>
+        onStore sys1 j fun b =>
           let r := deposit cls b n cur
-          (sys1.set j r.1, match r.2 with | .ok _ => .bool true | .error e => .raised e)
-        | none => (sys1, .noSuchStore)
+          (r.1, match r.2 with | .ok _ => .bool true | .error e => .raised e)
       else (sys1, .bool false)
     | _, _ => (sys, .noSuchStore)
-  | .convert i n =>
-    match sys[i]? with
-    | some s => let r := convert s n; (sys.set i r.1, .int r.2)
-    | none => (sys, .noSuchStore)
-  | .dorm i =>
-    match sys[i]? with
-    | some s => (sys.set i (enterDormancy s), .none)
-    | none => (sys, .noSuchStore)
-  | .wake i =>
-    match sys[i]? with
-    | some s => let r := exitDormancy cls s; (sys.set i r.1, retUnit r.2)
-    | none => (sys, .noSuchStore)
-  | .interest i =>
-    match sys[i]? with
-    | some s => (sys.set i (applyInterest s), .none)
-    | none => (sys, .noSuchStore)
-  | .reset i =>
-    match sys[i]? with
-    | some s => let r := reset cls s; (sys.set i r.1, retUnit r.2)
-    | none => (sys, .noSuchStore)
+  | .convert i n => onStore sys i fun s => let r := convert s n; (r.1, .int r.2)
+  | .dorm i => onStore sys i fun s => (enterDormancy s, .none)
+  | .wake i => onStore sys i fun s => let r := exitDormancy cls s; (r.1, retUnit r.2)
+  | .interest i => onStore sys i fun s => (applyInterest s, .none)
+  | .reset i => onStore sys i fun s => let r := reset cls s; (r.1, retUnit r.2)
 
 /-- Run a history; returns the final colony and what each call returned. -/
 def run (cls : Classifier) : Sys → List Op → Sys × List Ret
